@@ -11,14 +11,16 @@ from ..core import Violation, Outcome
 ID = 'C10'
 TITLE = 'dynamic nodes run exactly once, layout-independent'
 RULE = ('config with side-effecting producers (!call:vfrec.call_i, !eval note(i)) at top level, in nested mappings and lists; consumers: several '
-        '!xref to one producer (also into containers), producers used as arguments of other calls, !eval code naming top-level keys; a random '
+        '!xref to one producer (also into containers), yaml aliases placing the producer node itself at further places (top level, inside a list, '
+        'inside a mapping), producers used as arguments of other calls, !eval code naming top-level keys; a random '
         'permutation of the key order of every mapping; 0-2 later stages overwriting / deleting / replacing the container of a subset or giving a call '
         'with a !force-pinned dynamic argument another target; optionally one EvalContext shared by all builds; '
         'non-trivial = a producer with >=2 consumers of >=2 kinds, or a consumer written before its target, or an overwritten producer; '
         'distinct = hash of the case')
 BUDGET = {'quick': (4, 500), 'thorough': (16, 8000)}
 CRASH_GUARD = True
-ASSUMPTIONS = ['later stages only replace or delete whole producers / containers (survivors follow from the plain fold)',
+ASSUMPTIONS = ['a yaml alias denotes the same node as its anchor (yaml semantics; the loader shares the node object), so it counts as one dynamic node',
+               'later stages only replace or delete whole producers / containers (survivors follow from the plain fold)',
                'referenced keys are overwritten, not deleted (a dangling reference is an error by C09)']
 
 
@@ -64,6 +66,18 @@ def _case(draw):
             pid += 1
             top.append([f'e{j}', ['ceval', pid, tgt[1]]])
             prods.append([pid, [f'e{j}'], 'ceval'])
+    # yaml aliases: the producer node itself (one node, by yaml's own semantics) sits at further places - a top-level key, inside a list,
+    # inside a mapping; whichever place comes first in the text carries the anchor (see order_anchors)
+    base_prods = [p for p in prods if p[2] in ('call', 'eval')]
+    for j in range(draw(st.sampled_from([0, 0, 1, 2]))):
+        tgt = base_prods[draw(st.integers(0, len(base_prods) - 1))]
+        form = draw(st.sampled_from(['top', 'seq', 'seq', 'map']))
+        if form == 'top':
+            top.append([f'y{j}', ['alias', tgt[0]]])
+        elif form == 'seq':
+            top.append([f'y{j}', ['seq', [['lit', 3], ['alias', tgt[0]]]]])
+        else:
+            top.append([f'y{j}', ['map', [['v', ['alias', tgt[0]]], ['w', ['lit', 4]]]]])
     # a call holding a !force-pinned dynamic argument; a later stage may give the key a call with another target, which drops
     # the old arguments whatever their priority - the pinned producer then no longer exists and must not run
     for j in range(draw(st.sampled_from([0, 0, 1]))):
@@ -130,8 +144,13 @@ def node_of(spec):
         return tdoc.sc(spec[1])
     if k == 'prod':
         if spec[2] == 'call':
-            return tdoc.mp([('id', tdoc.sc(spec[1]))], flow=True, tag=f'!call:vfrec.call_{spec[1]}')
-        return tdoc.raw(f"__import__('vfrec').note({spec[1]})", '!eval', q='dq')
+            n = tdoc.mp([('id', tdoc.sc(spec[1]))], flow=True, tag=f'!call:vfrec.call_{spec[1]}')
+        else:
+            n = tdoc.raw(f"__import__('vfrec').note({spec[1]})", '!eval', q='dq')
+        n['anchor'] = f'n{spec[1]}'
+        return n
+    if k == 'alias':
+        return {'t': 'alias', 'name': f'n{spec[1]}'}
     if k == 'map':
         return tdoc.mp([(kk, node_of(v)) for kk, v in spec[1]])
     if k == 'seq':
@@ -163,6 +182,48 @@ def permute(node, seeds, depth=0):
     return out
 
 
+def order_anchors(doc):
+    """An anchor must precede its aliases in the text: the first place (in rendering order) of every shared node carries the
+    definition, the others are aliases.  Anchors nobody uses are dropped."""
+    defs, used = {}, set()
+    for _, n in tdoc.walk(doc):
+        if n.get('anchor'):
+            defs[n['anchor']] = n
+        if n['t'] == 'alias':
+            used.add(n['name'])
+    seen = set()
+
+    def rec(n):
+        name = n.get('anchor') or (n['name'] if n['t'] == 'alias' else None)
+        if name is not None:
+            if name not in used:
+                return {k: v for k, v in n.items() if k != 'anchor'}
+            if name in seen:
+                return {'t': 'alias', 'name': name}
+            seen.add(name)
+            return dict(defs[name])
+        out = dict(n)
+        if n['t'] == 'map':
+            out['items'] = [[k, rec(v)] for k, v in n['items']]
+        elif n['t'] == 'seq':
+            out['items'] = [rec(v) for v in n['items']]
+        return out
+    return rec(doc)
+
+
+def alias_places(case):
+    """-> {producer id: [paths of its alias places]}"""
+    out = {}
+    for k, spec in case['top']:
+        if spec[0] == 'alias':
+            out.setdefault(spec[1], []).append([k])
+        elif k.startswith('y') and spec[0] == 'seq':
+            out.setdefault(spec[1][1][1], []).append([k, 1])
+        elif k.startswith('y') and spec[0] == 'map':
+            out.setdefault(spec[1][0][1][1], []).append([k, 'v'])
+    return out
+
+
 def stage_doc(acts):
     items = []
     for k, a in acts:
@@ -189,7 +250,10 @@ def survivors(case):
     out = set()
 
     def rec(spec, topkey):
-        if spec[0] == 'pcall':
+        if spec[0] == 'alias':
+            if topkey not in overwritten:
+                out.add(spec[1])        # the shared node still exists at this place
+        elif spec[0] == 'pcall':
             if topkey not in overwritten:
                 out.update([spec[1], spec[2]])
             else:
@@ -254,7 +318,23 @@ def run_case(case):
         from awesomeyaml import EvalContext
         ctx = EvalContext()
         labels.add('shared-eval-context')
-    for layout, doc in (('original', base), ('permuted', permute(base, case['perm']))):
+    aliases = alias_places(case)
+    if aliases:
+        labels.add('yaml-alias-of-a-producer')
+        nontrivial = True
+    prod_path = {}
+    for k, spec in case['top']:
+        if spec[0] == 'prod':
+            prod_path[spec[1]] = [k]
+        elif k in ('box',) and spec[0] == 'map':
+            for kk, v in spec[1]:
+                if v[0] == 'prod':
+                    prod_path[v[1]] = [k, kk]
+        elif k == 'lst' and spec[0] == 'seq':
+            for i, v in enumerate(spec[1]):
+                if v[0] == 'prod':
+                    prod_path[v[1]] = [k, i]
+    for layout, doc in (('original', order_anchors(base)), ('permuted', order_anchors(permute(base, case['perm'])))):
         texts = [tdoc.render(doc)] + [tdoc.render(d) for d in later]
         src = f'\nlayout: {layout}\nsources:\n' + '\n'.join(texts)
         status, got, log = _run(texts, ctx)
@@ -273,6 +353,12 @@ def run_case(case):
             for c in path:
                 cur = cur[c]
             return cur
+        for pid_, places in aliases.items():
+            live = [p for p in places + [prod_path[pid_]] if p[0] not in overwritten]
+            for p in live[1:]:
+                if at(p) is not at(live[0]):
+                    raise Violation(f'C10: the node #{pid_} sits at {pstr(live[0])} and, through a yaml alias, at {pstr(p)}, but the evaluated '
+                                    f'config holds two different objects there{src}')
         for k, spec in case['top']:
             if k in overwritten:
                 continue
